@@ -387,7 +387,9 @@ func run(t *testing.T, sc Scenario) *core.Result {
 					c.Close()
 					d := time.Since(t0)
 					w.Log.Add(name+":"+who, "client.close.ret", "")
-					if lim := baseBound + budget(hold0); d > lim {
+					// a recording client whose peer stopped reading: the write in progress runs into its
+					// deadline, then the TEARDOWN written by Close does (two write timeouts in a row)
+					if lim := baseBound + ms(sc.WriteTO) + budget(hold0); d > lim {
 						w.Fail("c13/close-latency client", "Client.Close (%s, state %s) took %v of simulated time (bound %v)", p.Transport, st, d, lim)
 					}
 					if left := w.Net.OpenSockets(name); len(left) > 0 {
@@ -789,7 +791,7 @@ func init() {
 	f.Excluded = []string{"UDP-multicast transport (serverMulticastWriter*)", "back-pressure under TLS / WebSocket"}
 	f.Rule = "scenario = 1..4 peers (reader or publisher; udp/tcp/http/ws; plain or TLS+SRTP) each progressing to a seeded protocol step (started, described/announced, set up, playing/recording, paused, resumed) x Client.Close from another goroutine at a seeded instant (or silent disappearance of the peer's node) x Server.Close / ServerStream.Close at seeded instants while a writer keeps writing x peers that stop reading (bounded window + stall) x seeded yield holds on the shutdown paths; non-trivial = at least one Close (or vanish) landed mid-run and a fault or yield fired; distinct = distinct hash of the canonical event log"
 	f.Assumptions = []string{
-		"bounded time for Close = ReadTimeout + WriteTimeout + the simulator's own injected-delay budget (yield holds assigned during the call, 8 x max latency, 2 s)",
+		"bounded time for Close = ReadTimeout + WriteTimeout (Client.Close: + one more WriteTimeout, because a write that is blocked on a peer that stopped reading and the TEARDOWN written by Close run into their deadlines one after the other) + the simulator's own injected-delay budget (yield holds assigned during the call, 8 x max latency, 2 s)",
 		"per-object goroutine attribution is best effort (creator chains seen at census points); the end-of-run census (no goroutine at all left in the bubble) is complete",
 		"'packet or request callback' = OnPacketRTP/OnPacketRTCP callbacks of the session and the OnAnnounce/OnSetup/OnPlay/OnRecord/OnPause/OnGetParameter/OnSetParameter handler calls that carry the session",
 	}
